@@ -6,7 +6,9 @@ CONSTANTS
   MaxBurst = 2
   MaxMsgs = 4
   Depth = 5
-  Focus = FALSE
+  Mode = "all"
+  Aware = FALSE
+  Holds = {FALSE}
 INVARIANT Inv
 CONSTRAINT EmitAll
 CHECK_DEADLOCK FALSE
